@@ -52,6 +52,8 @@ Apply(t, e) ==
          ELSE IF t.avail + (IF t.accHolds THEN 1 ELSE 0) # t.max THEN No(<<"slots lost", t.avail, t.max>>)
          ELSE IF {p \in t.inflight : p[1] \notin {e.aborted[i] : i \in 1..Len(e.aborted)}} # {} THEN No(<<"in-flight request got no response", t.inflight>>)
          ELSE Ok(t)
+    \* e.a = handlers entered since the refill began (the harness first waits until every connection that was ever
+    \* established has ended, so that a connection accepted late from the listen backlog cannot blur the count)
     [] e.ev = "RefillOk" -> IF e.a = t.max THEN Ok(t) ELSE No(<<"after the history only", e.a, "of", t.max, "connections could be serviced at once">>)
     [] e.ev = "RevokeBegin" -> Ok([t EXCEPT !.revoked = 1])
     [] e.ev = "RevokeDone" -> Ok([t EXCEPT !.revoked = 2])
